@@ -480,7 +480,14 @@ def wire(tables, ops, table):
             continue
         w = dict(o)
         if o["op"] == "copyfrom":
-            w = {"op": "set", "cfg": o["cfg"], "path": o["path"], "key": o["key"], "value": o.get("value_seen")}
+            if o.get("how", "assign") in ("assign", "tree"):
+                # the model's own transfer step (Heap/Transfer.lean; theorems in Props/C13b.lean): every level re-created for the receiver
+                kind = dict((nm, fd) for nm, fd in tables[0]["fields"]).get(o["key"], {}).get("kind", "")
+                entry = ("ListProxy" if kind.startswith("list") else "DictProxy") + ".__init__"
+                unguarded = o.get("how", "assign") == "assign" and any(not g for nm, g in table.get("fast_paths", []) if nm.startswith(entry))
+                w = {"op": "transfer", "cfg": o["cfg"], "src": o["src"], "path": o["path"], "key": o["key"], "mode": "adopt" if unguarded else "revalidate"}
+            else:
+                w = {"op": "set", "cfg": o["cfg"], "path": o["path"], "key": o["key"], "value": o.get("value_seen")}
         if o["op"] == "loads_unknown":
             w = {"op": "set", "cfg": o["cfg"], "path": [], "key": o["key"], "value": o["value"]}
         if "value" in w:
@@ -709,7 +716,12 @@ def run(ctx, n_quick=250, n_thorough=8000):
     import extract
     res = Result()
     table = extract.default_disciplines(ctx.repo)
-    res.extra["default_disciplines"] = table
+    res.extra["default_disciplines"] = dict(table)
+    try:
+        table["fast_paths"] = extract.proxy_fast_paths(ctx.repo)
+    except Exception:  # noqa  (the translator's failure is reported by the obligation; the model then takes the guarded reading)
+        table["fast_paths"] = []
+    res.extra["proxy_fast_paths"] = table["fast_paths"]
     reqs, pend = [], []
     for i in range(ctx.n(n_quick, n_thorough)):
         one_case(ctx, res, i, table, reqs, pend)
